@@ -151,6 +151,7 @@ Employee ID: 1111
 STOCK PLAN EXERCISE CONFIRMATION
 ".
 
+Definition w_note_1234 : text := t "Option Grant 1234".
 Definition grant_number_rows (s : text) : nat :=
   match eso_split s with
   | Some (_, body) => length (all_matches (m_row k_grant_number vp_digits) body)
